@@ -2,7 +2,7 @@
    Only theorem statements closed by [exact]; proofs live in Proofs/Transmit.v.
    gen_cfg mb b is the model configuration whose constants (1 MB, 5 MB, header slack, retry bound,
    Retry-After bound, ticker divisor) are re-read from transmit/direct_transmit.go on every run. *)
-From Refinery Require Import Lib.Base Model.Transmit Proofs.Transmit.
+From Refinery Require Import Lib.Base Model.Transmit Proofs.Transmit Model.TransmitCreate Proofs.TransmitCreate.
 From Coq Require Import Permutation.
 
 (* For every MaxBatchSize >= 1, BatchTimeout >= 4 ns, every stream of enqueues / clock advances /
@@ -52,6 +52,27 @@ Theorem C26_retry_only_when_asked : forall c rs r0 rest,
   r0 = RTimeout \/ exists code sl sts, r0 = RHttp code sl sts /\ (code = 429 \/ code = 503) /\ 0 < sl < retryLim c.
 Proof. exact c26_retry_only_when_asked. Qed.
 Print Assumptions C26_retry_only_when_asked.
+
+(* EnqueueEvent's lookup-then-create for one new destination, as atomic steps (read-locked lookup; write-locked
+   second look and create; append under the batch mutex), any number of goroutines, every schedule: at most one batch
+   is ever created and everything appended anywhere is in the batch the map holds (what the ticker and Stop see). *)
+Theorem C26_no_orphan_batch : forall (evs : list N) (sched : list nat),
+  let s := crun true (cinit evs) sched in
+  (length (made s) <= 1)%nat /\ concat (made s) = reachable s.
+Proof. exact no_orphan_batch. Qed.
+Print Assumptions C26_no_orphan_batch.
+
+(* without the second look under the write lock two goroutines racing on a new destination orphan a batch:
+   event 1 sits in a batch the map no longer holds *)
+Example C26_create_without_recheck_refuted :
+  let s := crun false (cinit [1; 2]%N) [0; 1; 0; 1; 0; 1]%nat in
+  all_done s = true /\ made s = [[1%N]; [2%N]] /\ reachable s = [2%N].
+Proof. vm_compute. repeat split; reflexivity. Qed.
+
+Example C26_create_with_recheck_nonvacuous :
+  let s := crun true (cinit [1; 2; 3]%N) [0; 1; 0; 1; 2; 0; 1; 2; 2]%nat in
+  all_done s = true /\ reachable s = [1; 2; 3]%N.
+Proof. vm_compute. split; reflexivity. Qed.
 
 (* Non-vacuity: MaxBatchSize 2, BatchTimeout 1000 ns, ticker every 250 ns. e1 leaves by stale dispatch at the
    tick +1000 (age = BatchTimeout), e2 e3 fill a batch at +1250, e4 (1 000 001 bytes) is dropped on Stop,
